@@ -1,5 +1,5 @@
 (* C19 — a failing file-system call never corrupts files (single-link files). *)
-From AD Require Import Bytes Outcome Fs Helper HelperProofs.
+From AD Require Import Bytes Outcome Gen Fs Helper HelperProofs Cleanup Config Walk NoPanic.
 
 (* [fault = Some (k, errno)] makes the k-th operation of the run fail with errno (the state is then
    unchanged by that operation).  For every k and errno, every handler result and shape: every state,
@@ -21,5 +21,30 @@ Theorem C19_replaced_is_complete : forall e k er prof eager handler p f0 ip meta
             committed e meta f0 p (tmp_path p) y (s_fs (fst (run_handler e (Some (k, er)) Real prof eager handler p (init_sim f0)))).
 Proof. intros e k er. exact (replaced_committed e (Some (k, er))). Qed.
 
+(* the temporary file does not stay behind: whatever operation fails (k and errno arbitrary, natural failures
+   included), at the end the temporary name is unbound - or the removal itself is among the failed calls *)
+Theorem C19_temp_removed : forall e fault p prof eager handler f0,
+  names f0 (tmp_path p) = None -> p <> tmp_path p ->
+  snd (run_handler e fault Real prof eager handler p (init_sim f0)) <> None ->
+  tidy p (fst (run_handler e fault Real prof eager handler p (init_sim f0))).
+Proof. exact temp_removed. Qed.
+
+(* the failure is reported: a run whose result is not Error met no failed operation other than the ones the tool
+   only logs (removal of the temporary file, a chown refused with EPERM/EACCES, EEXIST on the first creation of
+   the temporary file) - so any other failing call makes the result Error, which Stats::add_one counts *)
+Theorem C19_failure_reported : forall e fault p prof eager handler f0 c,
+  snd (run_handler e fault Real prof eager handler p (init_sim f0)) = Some c -> c <> Error ->
+  quiet (fst (run_handler e fault Real prof eager handler p (init_sim f0))).
+Proof. exact failure_reported. Qed.
+
+(* and the remaining files are still processed: with handlers that do not panic the walk visits every entry,
+   whatever fails *)
+Theorem C19_walk_continues : forall e fault m prof hs, (forall h, In h hs -> forall x, hd_fun h x <> Panic) ->
+  forall entries w, walk e fault m prof hs w entries <> None.
+Proof. exact walk_total. Qed.
+
 Print Assumptions C19_fault_atomic.
 Print Assumptions C19_replaced_is_complete.
+Print Assumptions C19_temp_removed.
+Print Assumptions C19_failure_reported.
+Print Assumptions C19_walk_continues.
